@@ -2,6 +2,7 @@ package main
 
 import (
 	"fmt"
+	"net/url"
 	"strings"
 )
 
@@ -451,6 +452,14 @@ func c02Gen(r *Rng, tier string, i int) Sx {
 		}
 	}
 	opts, qs = rtGroup(r, opts, qs)
+	if r.Chance(1, 6) { // UseEncodedPath: served requests are matched on the escaped text, which the case carries
+		opts = append(opts, L(A("enc")))
+		for k, q := range qs {
+			if q.Head() == "s" {
+				qs[k] = L(q.List[0], q.List[1], q.List[2], S((&url.URL{Path: q.List[2].Str()}).EscapedPath()))
+			}
+		}
+	}
 	return L(A("rt"), LS(opts), LS(t.defs), LS(qs))
 }
 
